@@ -162,6 +162,9 @@ pub fn point(name: &str) -> crate::error::Result {
             "panic" => panic!("verif: injected panic at {name}"),
             "abort" => std::process::abort(),
             "segv" => unsafe {
+                // The Rust runtime installs a SIGSEGV handler (stack overflow detection) that
+                // returns for faults it doesn't recognise; restore the default action first.
+                libc::signal(libc::SIGSEGV, libc::SIG_DFL);
                 libc::raise(libc::SIGSEGV);
             },
             "kill" => unsafe {
